@@ -254,10 +254,16 @@ type NXActionConnTrack struct {
 }
 
 func (a *NXActionConnTrack) Len() (n uint16) {
-	return a.Length
+	// Computed from the nested actions: one of them may have grown since AddAction.
+	n = a.NXActionHeader.Len() + 14
+	for _, action := range a.actions {
+		n += action.Len()
+	}
+	return
 }
 
 func (a *NXActionConnTrack) MarshalBinary() (data []byte, err error) {
+	a.Length = a.Len()
 	data = make([]byte, int(a.Length))
 	var b []byte
 	n := 0
